@@ -150,6 +150,44 @@ func ruleErrProp(p *Program, r *Reporter) {
 					}
 					continue
 				}
+				// (c) an error produced inside a loop must be tested inside it: merging it
+				// into a loop-carried variable lets a later iteration overwrite it
+				if inCycle(b) {
+					tested := false
+					seenV := map[ssa.Value]bool{}
+					var follow func(v ssa.Value, viaPhi bool)
+					follow = func(v ssa.Value, viaPhi bool) {
+						if seenV[v] {
+							return
+						}
+						seenV[v] = true
+						for _, ref := range liveRefs(v) {
+							switch x := ref.(type) {
+							case *ssa.BinOp:
+								if (isNilConst(x.X) || isNilConst(x.Y)) && (x.Block() == b || blockReaches(x.Block(), b, nil)) {
+									tested = true
+								}
+							case *ssa.Return:
+								if !viaPhi {
+									tested = true
+								}
+							case *ssa.Store:
+								if _, ok := terminator(x.Block()).(*ssa.Return); ok && !viaPhi {
+									tested = true
+								}
+							case *ssa.Phi:
+								follow(x, true)
+							}
+						}
+					}
+					for _, ev := range errVals {
+						follow(ev, false)
+					}
+					if !tested {
+						r.Fail(key, pos, "this call sits in a loop and its error is neither tested nor returned inside the loop (it only flows into a variable the next iteration overwrites): all but the last iteration's failures are lost")
+						continue
+					}
+				}
 				// (b) swallowed on the error branch
 				swallowed := false
 				if fnErrIdx >= 0 {
@@ -202,6 +240,27 @@ func ruleErrProp(p *Program, r *Reporter) {
 			}
 		}
 	}
+}
+
+// inCycle: b lies on a cycle of its function's control-flow graph.
+func inCycle(b *ssa.BasicBlock) bool {
+	seen := map[*ssa.BasicBlock]bool{}
+	var w func(x *ssa.BasicBlock) bool
+	w = func(x *ssa.BasicBlock) bool {
+		for _, s := range x.Succs {
+			if s == b {
+				return true
+			}
+			if !seen[s] {
+				seen[s] = true
+				if w(s) {
+					return true
+				}
+			}
+		}
+		return false
+	}
+	return w(b)
 }
 
 // ---------------------------------------------------------------------------
